@@ -319,3 +319,27 @@ Definition cr_open (r : rstate) : result (list (bytes * bytes) * bytes * rstate)
   | (OutOfFuel, _) => OutOfFuel
   | (Unmodelled, _) => Unmodelled
   end.
+
+(* interpreting the metadata like the derived Deserialize of Metadata<String, M> (flatten):
+   avro.schema exactly once and valid UTF-8; avro.codec at most once (absent = null) and one of
+   the codec names; everything else is user metadata *)
+Definition AVRO_SCHEMA_KEY : bytes := lit "avro.schema".
+Definition AVRO_CODEC_KEY : bytes := lit "avro.codec".
+Definition codec_names : list bytes :=
+  [lit "null"; lit "deflate"; lit "bzip2"; lit "snappy"; lit "xz"; lit "zstandard"].
+
+Definition header_meta (entries : list (bytes * bytes))
+  : result (bytes * bytes * list (bytes * bytes)) :=
+  let schemas := filter (fun kv => bytes_eqb (fst kv) AVRO_SCHEMA_KEY) entries in
+  let codecs := filter (fun kv => bytes_eqb (fst kv) AVRO_CODEC_KEY) entries in
+  let user := filter (fun kv => negb (bytes_eqb (fst kv) AVRO_SCHEMA_KEY) && negb (bytes_eqb (fst kv) AVRO_CODEC_KEY)) entries in
+  match schemas with
+  | [(_, json)] =>
+      if negb (Utf8.utf8_valid json) then Err EData else
+      match codecs with
+      | [] => Ok (json, lit "null", user)
+      | [(_, c)] => if existsb (bytes_eqb c) codec_names then Ok (json, c, user) else Err EData
+      | _ => Err EData
+      end
+  | _ => Err EData
+  end.
